@@ -209,7 +209,9 @@ pub fn draw_plans(nlinks: usize, frame_body: usize, max_msgs: u32, uid_base: &mu
         let mut presettle = Vec::new();
         let mut send_kind = Vec::new();
         let big = choice(3) == 1;
-        let mms = pick(&[None, None, Some(64u64), Some(300)]);
+        // 64/300: smaller than every frame size (link-level split only); 700/1500: larger than the
+        // small frame sizes, so that a link-level piece is split again by the transport
+        let mms = pick(&[None, None, None, Some(64u64), Some(300), Some(700), Some(1500)]);
         // with link-level splitting keep the number of transfers per message moderate, so
         // that the frame volume stays far below the roomy channel capacities
         let frame_body = match mms {
